@@ -28,7 +28,28 @@ func (c17) Rule() string {
 	return "receiver states {zero Stack, Stack built by a seeded history then Free'd, zero Condition, Condition Free'd, Init()-only Condition, nil Auxiliary}; burst of 2-8 calls drawn from EVERY exported method (reflection) x 3 argument variants, plus ConvertStack/ConvertCondition on dead values; Free on live instances (read-only or not) and Reset on stacks holding nil elements inside the history; non-trivial = at least 3 distinct methods hit a dead receiver; distinct = hash(receiver state, method+variant sequence)"
 }
 
+// c17conc: Free issued by one task while another is inside a critical
+// section of the same stack (parked in its push policy, lock held): Free
+// releases the HANDLE; only the read-only flag may make it refuse.
+func c17conc(r *Rng) *Trace {
+	tr := &Trace{Prop: "C17", Config: "conc"}
+	tr.Objs = []ObjSpec{{T: "S", Kind: kinds[r.Intn(len(kinds))]}}
+	tr.Setup = []Op{{Obj: 0, M: "SetMutex"}, {Obj: 0, M: "SetPushPolicy", Args: []Val{vFn(2)}}, {Obj: 0, M: "Push", Args: []Val{vStr("i1")}}}
+	tr.Tasks = [][]Op{
+		{{Obj: 0, M: "Push", Args: []Val{vStr("a"), vStr("b")}, Tag: "pre"}},
+		{{Obj: 0, M: "Free", Tag: "free-live"}},
+	}
+	if r.Bool(0.5) {
+		tr.Tasks[1] = append([]Op{{Obj: 0, M: "Len", Tag: "pre"}}, tr.Tasks[1]...)
+	}
+	tr.Knobs = Knobs{Stay: 0.3, PreemptWant: 0.7, PolicyYield: true, CfgYield: []int{0, 3}[r.Intn(2)]}
+	return tr
+}
+
 func (c17) Gen(r *Rng, tier string, run int) *Trace {
+	if r.Bool(0.08) {
+		return c17conc(r)
+	}
 	g := newHgen(r, "C17")
 	w := buildRich(g)
 	zs := g.addZeroStack()
@@ -155,6 +176,15 @@ func (c17) AfterOp(x *Exec, task, idx int, op Op, out Outcome) {
 	now := w.snapshot()
 	defer func() { st.dumps = now }()
 	switch op.Tag {
+	case "free-live":
+		o := w.objs[op.Obj]
+		if len(out.Ret) != 1 || out.Ret[0] != "nil" || !o.S.IsZero() || o.S.IsInit() {
+			x.fail("free-refused:Free", fmt.Sprintf("task %d: Free on a live, writable %s returned %s and left the handle zero=%v (another task was inside a critical section of the same stack; only the read-only flag may make Free refuse)", task, o.name, out, o.S.IsZero()))
+			return
+		}
+		x.fault("freed-while-locked-elsewhere")
+		x.stats.NonTrivial = true
+		x.stats.ShapeSig += fmt.Sprint("conc-free", x.sched)
 	case "reset":
 		o := w.objs[op.Obj]
 		if n := o.keep.Len(); n != 0 {
